@@ -186,5 +186,6 @@ func runC06(r *Report, rng *rand.Rand, thorough bool) {
 		}
 	}
 	r.Exhaustive = thorough
-	r.Rule = "every operation of the parameter family (one per cell of location x style x explode x shape x required x schema/JSON content) x {required parameter missing, optional parameter missing (must be accepted), wrong type, integer overflow, bad date / date-time / uuid, wrong array element, malformed JSON content, wrong label/matrix prefix, duplicated single-valued header} x 7 frameworks x {default error path, configured error handler}; oracle: zero handler calls and status 400 / error handler invoked for corrupted requests, exactly one handler call for well-formed ones; non-trivial = a corruption or a missing required parameter"
+	runC06Combine(r, rng, thorough)
+	r.Rule = "function level: CombineOperationParameters on random path-level / operation-level parameter lists vs the model; every operation of the parameter family (one per cell of location x style x explode x shape x required x schema/JSON content) x {required parameter missing, optional parameter missing (must be accepted), wrong type, integer overflow, bad date / date-time / uuid, wrong array element, malformed JSON content, wrong label/matrix prefix, duplicated single-valued header} x 7 frameworks x {default error path, configured error handler}; oracle: zero handler calls and status 400 / error handler invoked for corrupted requests, exactly one handler call for well-formed ones; non-trivial = a corruption or a missing required parameter"
 }
